@@ -1,41 +1,692 @@
-(** * PoolProofs: proofs of the C02 statements (to be filled). *)
+(** * PoolProofs: proofs of the C02 statements. *)
 From Ark Require Import Model.Base Model.Mask Model.Pool Proofs.PoolSpec.
+From Coq Require Import Lia ZifyN ZifyNat ZifyBool.
+
+(** ** Helper lemmas on [upd] / [nth_error] *)
+
+Section UpdLemmas.
+Context {A : Type}.
+
+Lemma upd_length : forall i (x : A) l, length (upd i x l) = length l.
+Proof.
+  intros i x l; revert i; induction l as [|h t IH]; intros [|i]; cbn; auto.
+Qed.
+
+Lemma nth_error_upd_eq : forall i (x : A) l,
+  i < length l -> nth_error (upd i x l) i = Some x.
+Proof.
+  intros i x l; revert i; induction l as [|h t IH]; intros [|i] H; cbn in *; try lia; auto.
+  apply IH; lia.
+Qed.
+
+Lemma nth_error_upd_neq : forall i j (x : A) l,
+  i <> j -> nth_error (upd i x l) j = nth_error l j.
+Proof.
+  intros i j x l; revert i j; induction l as [|h t IH]; intros [|i] [|j] H; cbn; auto;
+    try congruence; try (apply IH; lia).
+Qed.
+
+Lemma NoDup_snoc : forall (l : list A) x, NoDup l -> ~ In x l -> NoDup (l ++ [x]).
+Proof.
+  intros l x; induction l as [|h t IH]; intros Hnd Hni; cbn.
+  - constructor; [intros [] | constructor].
+  - inversion Hnd as [|h' t' Hh Ht]; subst. constructor.
+    + rewrite in_app_iff; cbn. intros [H|[H|[]]]; [auto|].
+      subst. apply Hni; left; auto.
+    + apply IH; auto. intros H; apply Hni; right; auto.
+Qed.
+
+Lemma nth_error_Some_lt : forall (l : list A) i x, nth_error l i = Some x -> i < length l.
+Proof. intros l i x H. apply nth_error_Some. rewrite H. discriminate. Qed.
+
+End UpdLemmas.
+
+(** ** The generation stored in a slot *)
+
+Definition slot_gen (l : list ent) (i : nat) : option N :=
+  match nth_error l i with Some (_, g) => Some g | None => None end.
+
+Lemma slot_gen_lt : forall l i g, slot_gen l i = Some g -> i < length l.
+Proof.
+  unfold slot_gen; intros l i g H. apply nth_error_Some. intros E; rewrite E in H; discriminate.
+Qed.
+
+Lemma slot_gen_upd_eq : forall l i x g, i < length l -> slot_gen (upd i (x, g) l) i = Some g.
+Proof. unfold slot_gen; intros l i x g H. rewrite nth_error_upd_eq by exact H. reflexivity. Qed.
+
+Lemma slot_gen_upd_neq : forall l i j v, i <> j -> slot_gen (upd i v l) j = slot_gen l j.
+Proof. unfold slot_gen; intros l i j v H. rewrite nth_error_upd_neq by exact H. reflexivity. Qed.
+
+Lemma slot_gen_upd_same : forall (l : list ent) i x y g,
+  nth_error l i = Some (y, g) -> forall j, slot_gen (upd i (x, g) l) j = slot_gen l j.
+Proof.
+  intros l i x y g Hn j. destruct (Nat.eq_dec i j) as [Heq|Hne].
+  - subst j. rewrite slot_gen_upd_eq.
+    + unfold slot_gen; rewrite Hn; reflexivity.
+    + eapply nth_error_Some_lt; eassumption.
+  - apply slot_gen_upd_neq; exact Hne.
+Qed.
+
+Lemma slot_gen_app_lt : forall l t i, i < length l -> slot_gen (l ++ t) i = slot_gen l i.
+Proof. unfold slot_gen; intros l t i H. rewrite nth_error_app1 by exact H. reflexivity. Qed.
+
+Lemma slot_gen_app_eq : forall l x g, slot_gen (l ++ [(x, g)]) (length l) = Some g.
+Proof.
+  unfold slot_gen; intros l x g. rewrite nth_error_app2 by lia. rewrite Nat.sub_diag. reflexivity.
+Qed.
+
+Lemma slot_gen_app_gt : forall l v i, length l < i -> slot_gen (l ++ [v]) i = None.
+Proof.
+  unfold slot_gen; intros l v i H.
+  assert (E : nth_error (l ++ [v]) i = None).
+  { apply nth_error_None. rewrite app_length; cbn; lia. }
+  rewrite E; reflexivity.
+Qed.
+
+(** ** [ent_in] is list membership *)
+
+Lemma ent_eqb_eq : forall a b, ent_eqb a b = true <-> a = b.
+Proof.
+  intros [a1 a2] [b1 b2]; unfold ent_eqb; cbn [fst snd].
+  rewrite andb_true_iff, Nat.eqb_eq, N.eqb_eq.
+  split; [intros [-> ->]; reflexivity | intros H; inversion H; auto].
+Qed.
+
+Lemma ent_in_In : forall e l, ent_in e l = true <-> In e l.
+Proof.
+  intros e l; unfold ent_in; rewrite existsb_exists. split.
+  - intros (x & Hx & He). apply ent_eqb_eq in He; subst; exact Hx.
+  - intros H; exists e; split; [exact H | apply ent_eqb_eq; reflexivity].
+Qed.
+
+(** ** The weak invariant (holds for every history, wrapped or not) *)
+
+(** [walk l c n]: following the free-list links from [c] for [n] steps only visits
+    non-reserved, in-range slots. *)
+Fixpoint walk (l : list ent) (c n : nat) : Prop :=
+  match n with
+  | 0 => True
+  | S n' => 2 <= c /\ exists nid g, nth_error l c = Some (nid, g) /\ walk l nid n'
+  end.
+
+Lemma walk_mono : forall l n c, walk l c (S n) -> walk l c n.
+Proof.
+  intros l n; induction n as [|n IH]; intros c H; [exact I|].
+  destruct H as (H2 & nid & g & Hn & Hw). split; [exact H2|].
+  exists nid, g. split; [exact Hn|]. apply IH; exact Hw.
+Qed.
+
+Lemma walk_upd : forall l e v g' n x,
+  walk l x n -> walk l v n -> e < length l -> walk (upd e (v, g') l) x n.
+Proof.
+  intros l e v g' n; induction n as [|n IH]; intros x Hx Hv He; [exact I|].
+  pose proof (walk_mono _ _ _ Hv) as Hv'.
+  destruct Hx as (H2 & nid & g & Hn & Hw).
+  split; [exact H2|].
+  destruct (Nat.eq_dec e x) as [->|Hne].
+  - exists v, g'. split; [apply nth_error_upd_eq; exact He | apply IH; auto].
+  - exists nid, g. split; [rewrite nth_error_upd_neq by exact Hne; exact Hn | apply IH; auto].
+Qed.
+
+Record W (g : ghost) : Prop := {
+  W_len : 2 <= length (pe (g_pool g));
+  W_r0 : exists x, nth_error (pe (g_pool g)) 0 = Some (x, max_u32);
+  W_walk : walk (pe (g_pool g)) (pnext (g_pool g)) (pavail (g_pool g));
+  W_iss : forall e, In e (g_issued g) -> 2 <= fst e
+}.
+
+Arguments W_r0 {g}.
+Arguments W_iss {g}.
+
+Lemma W_ghost0 : W ghost0.
+Proof.
+  constructor; cbn.
+  - lia.
+  - exists 0; reflexivity.
+  - exact I.
+  - intros e [].
+Qed.
+
+Lemma W_step : forall g o, W g -> W (gstep g o).
+Proof.
+  intros [[l nx av] iss rem] o [Hlen Hr0 Hwalk Hiss];
+    cbn [g_pool g_issued g_removed pe pnext pavail] in *.
+  destruct o as [|k|]; unfold gstep; cbn [g_pool g_issued g_removed].
+  - (* PGet *)
+    unfold pool_get; cbn [pe pnext pavail].
+    destruct (Nat.eqb av 0) eqn:E.
+    + apply Nat.eqb_eq in E; subst av.
+      constructor; cbn [g_pool g_issued g_removed pe pnext pavail].
+      * rewrite app_length; cbn; lia.
+      * destruct Hr0 as [x Hx]; exists x. rewrite nth_error_app1 by lia. exact Hx.
+      * exact I.
+      * intros e He. apply in_app_or in He. destruct He as [He|[He|[]]].
+        -- apply Hiss; exact He.
+        -- subst e; cbn; exact Hlen.
+    + destruct av as [|n]; [discriminate|].
+      destruct Hwalk as (H2 & nid & g & Hn & Hw). rewrite Hn.
+      assert (Hc : nx < length l) by (eapply nth_error_Some_lt; eassumption).
+      constructor; cbn [g_pool g_issued g_removed pe pnext pavail].
+      * rewrite upd_length; exact Hlen.
+      * destruct Hr0 as [x Hx]; exists x. rewrite nth_error_upd_neq by lia. exact Hx.
+      * replace (S n - 1) with n by lia.
+        apply walk_upd; auto.
+        apply walk_mono. split; [exact H2|]. exists nid, g; split; auto.
+      * intros e He. apply in_app_or in He. destruct He as [He|[He|[]]].
+        -- apply Hiss; exact He.
+        -- subst e; cbn; exact H2.
+  - (* PRecycle *)
+    destruct (nth_error iss k) as [e|] eqn:Hk; [|constructor; assumption].
+    destruct (pool_alive _ e) eqn:Ha; [|constructor; assumption].
+    destruct (pool_recycle _ e) as [p'|] eqn:Hr; [|constructor; assumption].
+    apply nth_error_In in Hk. pose proof (Hiss _ Hk) as He2.
+    unfold pool_alive in Ha; cbn [pe] in Ha.
+    unfold pool_recycle in Hr; cbn [pe pnext pavail] in Hr.
+    destruct (Nat.ltb (fst e) reserved); [discriminate|].
+    destruct (nth_error l (fst e)) as [[x g]|] eqn:Hn; [|discriminate].
+    assert (Hc : fst e < length l) by (eapply nth_error_Some_lt; eassumption).
+    inversion Hr; subst p'; clear Hr.
+    constructor; cbn [g_pool g_issued g_removed pe pnext pavail].
+    + rewrite upd_length; exact Hlen.
+    + destruct Hr0 as [y Hy]; exists y. rewrite nth_error_upd_neq by lia. exact Hy.
+    + split; [exact He2|]. eexists _, _. split; [apply nth_error_upd_eq; exact Hc|].
+      apply walk_upd; auto.
+    + exact Hiss.
+  - (* PReset *)
+    constructor; cbn [g_pool g_issued g_removed pe pnext pavail pool_reset].
+    + unfold reserved; rewrite firstn_length; lia.
+    + destruct Hr0 as [x Hx]. exists x.
+      destruct l as [|a t]; [discriminate|]. cbn in Hx |- *. exact Hx.
+    + exact I.
+    + intros e [].
+Qed.
+
+Lemma W_fold : forall ops g, W g -> W (fold_left gstep ops g).
+Proof.
+  induction ops as [|o ops IH]; intros g H; cbn; [exact H|].
+  apply IH, W_step, H.
+Qed.
+
+Lemma W_run : forall ops, W (grun ops).
+Proof. intros ops; apply W_fold, W_ghost0. Qed.
+
+(** ** The strong invariant (needs [no_wrap] to be preserved by recycle) *)
+
+(** [chain l h fl]: [fl] is the free list starting at [h]; each element's slot stores
+    the next element in its id field (the last one stores anything). *)
+Fixpoint chain (l : list ent) (h : nat) (fl : list nat) : Prop :=
+  match fl with
+  | [] => True
+  | x :: r => x = h /\ exists nid g, nth_error l x = Some (nid, g) /\ chain l nid r
+  end.
+
+Lemma chain_upd : forall l c v fl h, ~ In c fl -> chain l h fl -> chain (upd c v l) h fl.
+Proof.
+  intros l c v fl; induction fl as [|x r IH]; intros h Hni Hc; [exact I|].
+  destruct Hc as (Hx & nid & g & Hn & Hr). split; [exact Hx|]. exists nid, g. split.
+  - rewrite nth_error_upd_neq; [exact Hn|]. intros ->; apply Hni; left; reflexivity.
+  - apply IH; [|exact Hr]. intros H; apply Hni; right; exact H.
+Qed.
+
+Record InvR (l : list ent) (nx av : nat) (iss rem : list ent) (fl : list nat) : Prop := {
+  I_len2 : 2 <= length l;
+  I_len : length fl = av;
+  I_nodup : NoDup fl;
+  I_range : forall x, In x fl -> 2 <= x < length l;
+  I_chain : chain l nx fl;
+  I_iss : forall i gen, In (i, gen) iss <->
+            2 <= i /\ exists sg, slot_gen l i = Some sg /\
+                                 (gen < sg \/ gen = sg /\ ~ In i fl)%N;
+  I_rem : forall i gen, In (i, gen) rem <->
+            2 <= i /\ exists sg, slot_gen l i = Some sg /\ (gen < sg)%N;
+  I_nd_iss : NoDup iss;
+  I_nd_rem : NoDup rem;
+  I_cnt : length iss + av + 2 = length l + length rem;
+  I_le : length rem <= length iss
+}.
+
+Arguments I_len2 {l nx av iss rem fl}.
+Arguments I_iss {l nx av iss rem fl}.
+Arguments I_rem {l nx av iss rem fl}.
+Arguments I_nd_iss {l nx av iss rem fl}.
+Arguments I_cnt {l nx av iss rem fl}.
+Arguments I_le {l nx av iss rem fl}.
+
+Definition Inv (g : ghost) : Prop :=
+  exists fl, InvR (pe (g_pool g)) (pnext (g_pool g)) (pavail (g_pool g))
+                  (g_issued g) (g_removed g) fl.
+
+Lemma inv_empty : forall l nx, length l = 2 -> InvR l nx 0 [] [] [].
+Proof.
+  intros l nx Hl. constructor.
+  - lia.
+  - reflexivity.
+  - constructor.
+  - intros x [].
+  - exact I.
+  - intros i gen; split;
+      [intros [] | intros (H2 & sg & Hs & _); apply slot_gen_lt in Hs; lia].
+  - intros i gen; split;
+      [intros [] | intros (H2 & sg & Hs & _); apply slot_gen_lt in Hs; lia].
+  - constructor.
+  - constructor.
+  - cbn; lia.
+  - cbn; lia.
+Qed.
+
+Lemma Inv_ghost0 : Inv ghost0.
+Proof. exists []. apply inv_empty. reflexivity. Qed.
+
+Lemma inv_get : forall l nx av iss rem fl e p',
+  InvR l nx av iss rem fl ->
+  pool_get {| pe := l; pnext := nx; pavail := av |} = (e, p') ->
+  exists fl', InvR (pe p') (pnext p') (pavail p') (iss ++ [e]) rem fl'.
+Proof.
+  intros l nx av iss rem fl e p'
+    [Hlen2 Hlen Hnd Hrange Hchain Hiss Hrem Hndi Hndr Hcnt Hle] Hget.
+  unfold pool_get in Hget; cbn [pe pnext pavail] in Hget.
+  destruct (Nat.eqb av 0) eqn:E.
+  - (* fresh slot *)
+    destruct av as [|av']; [clear E|discriminate].
+    destruct fl as [|? ?]; [|discriminate]. clear Hlen Hnd Hrange Hchain.
+    inversion Hget; subst e p'; clear Hget. cbn [pe pnext pavail].
+    exists []. constructor.
+    + rewrite app_length; cbn; lia.
+    + reflexivity.
+    + constructor.
+    + intros x [].
+    + exact I.
+    + intros i gen. rewrite in_app_iff. cbn [In]. split.
+      * intros [H|[H|[]]].
+        -- apply Hiss in H. destruct H as (H2 & sg & Hs & Hc). split; [exact H2|].
+           exists sg. split; [|exact Hc].
+           rewrite slot_gen_app_lt; [exact Hs | eapply slot_gen_lt; exact Hs].
+        -- inversion H; subst i gen. split; [exact Hlen2|]. exists 0%N.
+           split; [apply slot_gen_app_eq|]. right; split; [reflexivity | intros []].
+      * intros (H2 & sg & Hs & Hc).
+        destruct (lt_eq_lt_dec i (length l)) as [[Hlt|Heq]|Hgt].
+        -- left. apply Hiss. rewrite slot_gen_app_lt in Hs by exact Hlt.
+           split; [exact H2|]. exists sg; split; [exact Hs | exact Hc].
+        -- subst i. rewrite slot_gen_app_eq in Hs. inversion Hs; subst sg.
+           right; left. destruct Hc as [Hc|[Hc _]]; [lia|]. subst gen; reflexivity.
+        -- rewrite slot_gen_app_gt in Hs by exact Hgt. discriminate.
+    + intros i gen. split.
+      * intros H. apply Hrem in H. destruct H as (H2 & sg & Hs & Hc). split; [exact H2|].
+        exists sg. split; [|exact Hc].
+        rewrite slot_gen_app_lt; [exact Hs | eapply slot_gen_lt; exact Hs].
+      * intros (H2 & sg & Hs & Hc).
+        destruct (lt_eq_lt_dec i (length l)) as [[Hlt|Heq]|Hgt].
+        -- apply Hrem. rewrite slot_gen_app_lt in Hs by exact Hlt.
+           split; [exact H2|]. exists sg; split; [exact Hs | exact Hc].
+        -- subst i. rewrite slot_gen_app_eq in Hs. inversion Hs; subst sg. lia.
+        -- rewrite slot_gen_app_gt in Hs by exact Hgt. discriminate.
+    + apply NoDup_snoc; [exact Hndi|]. intros H. apply Hiss in H.
+      destruct H as (_ & sg & Hs & _). apply slot_gen_lt in Hs. lia.
+    + exact Hndr.
+    + rewrite !app_length; cbn; lia.
+    + rewrite app_length; cbn; lia.
+  - (* pop the free list *)
+    destruct av as [|n]; [discriminate|].
+    destruct fl as [|c rest]; [discriminate|].
+    destruct Hchain as (Hc & nid & g & Hn & Hch). subst c.
+    rewrite Hn in Hget. inversion Hget; subst e p'; clear Hget. cbn [pe pnext pavail].
+    inversion Hnd as [|c' r' Hnin Hnd']; subst.
+    assert (Hsame : forall j, slot_gen (upd nx (nx, g) l) j = slot_gen l j)
+      by (apply slot_gen_upd_same with (y := nid); exact Hn).
+    assert (Hsg : slot_gen l nx = Some g) by (unfold slot_gen; rewrite Hn; reflexivity).
+    assert (Hnx2 : 2 <= nx) by (apply Hrange; left; reflexivity).
+    exists rest. constructor.
+    + rewrite upd_length; exact Hlen2.
+    + cbn in Hlen; lia.
+    + exact Hnd'.
+    + intros x Hx. rewrite upd_length. apply Hrange; right; exact Hx.
+    + apply chain_upd; [exact Hnin | exact Hch].
+    + intros i gen. rewrite in_app_iff. cbn [In]. rewrite Hsame. split.
+      * intros [H|[H|[]]].
+        -- apply Hiss in H. destruct H as (H2 & sg & Hs & Hc). split; [exact H2|].
+           exists sg. split; [exact Hs|]. destruct Hc as [Hc|[Hc Hni]]; [left; exact Hc|].
+           right; split; [exact Hc|]. intros Hin; apply Hni; right; exact Hin.
+        -- inversion H; subst i gen. split; [exact Hnx2|]. exists g.
+           split; [exact Hsg|]. right; split; [reflexivity | exact Hnin].
+      * intros (H2 & sg & Hs & Hc).
+        destruct Hc as [Hc|[Hc Hni]].
+        -- left. apply Hiss. split; [exact H2|]. exists sg; split; [exact Hs|left; exact Hc].
+        -- destruct (Nat.eq_dec nx i) as [Heq|Hne].
+           ++ subst i. rewrite Hsg in Hs. inversion Hs; subst sg gen. right; left; reflexivity.
+           ++ left. apply Hiss. split; [exact H2|]. exists sg; split; [exact Hs|].
+              right; split; [exact Hc|]. intros [Hin|Hin]; [apply Hne; exact Hin | apply Hni; exact Hin].
+    + intros i gen. rewrite Hsame. apply Hrem.
+    + apply NoDup_snoc; [exact Hndi|]. intros H. apply Hiss in H.
+      destruct H as (_ & sg & Hs & Hc). rewrite Hsg in Hs; inversion Hs; subst sg.
+      destruct Hc as [Hc|[_ Hc]]; [lia|]. apply Hc; left; reflexivity.
+    + exact Hndr.
+    + rewrite upd_length, app_length; cbn; lia.
+    + rewrite app_length; cbn; lia.
+Qed.
+
+Lemma inv_recycle : forall l nx av iss rem fl e p',
+  InvR l nx av iss rem fl ->
+  no_wrap {| pe := l; pnext := nx; pavail := av |} ->
+  In e iss ->
+  pool_alive {| pe := l; pnext := nx; pavail := av |} e = true ->
+  pool_recycle {| pe := l; pnext := nx; pavail := av |} e = Some p' ->
+  exists fl', InvR (pe p') (pnext p') (pavail p') iss (rem ++ [e]) fl'.
+Proof.
+  intros l nx av iss rem fl [i0 g0] p'
+    [Hlen2 Hlen Hnd Hrange Hchain Hiss Hrem Hndi Hndr Hcnt Hle] Hnw Hin Ha Hr.
+  unfold pool_alive in Ha; cbn [pe fst snd] in Ha.
+  unfold pool_recycle in Hr; cbn [pe pnext pavail fst snd] in Hr.
+  destruct (Nat.ltb i0 reserved); [discriminate|].
+  destruct (nth_error l i0) as [[x g]|] eqn:Hn; [|discriminate].
+  apply N.eqb_eq in Ha; subst g0.
+  inversion Hr; subst p'; clear Hr. cbn [pe pnext pavail].
+  assert (Hsg : slot_gen l i0 = Some g) by (unfold slot_gen; rewrite Hn; reflexivity).
+  assert (Hi0 : i0 < length l) by (eapply nth_error_Some_lt; eassumption).
+  pose proof Hin as Hin'.
+  apply Hiss in Hin'. destruct Hin' as (H2 & sg & Hs & Hc).
+  rewrite Hsg in Hs; inversion Hs; subst sg; clear Hs.
+  destruct Hc as [Hc|[_ Hnin]]; [lia|].
+  assert (Hg : (g < max_u32)%N) by (apply (Hnw i0 x g); [exact H2 | exact Hn]).
+  assert (Hmod : ((g + 1) mod 4294967296 = g + 1)%N)
+    by (apply N.mod_small; unfold max_u32 in Hg; lia).
+  rewrite Hmod.
+  assert (Hsub : incl rem iss).
+  { intros [i gen] H. apply Hrem in H. destruct H as (Hi2 & sg & Hs & Hlt).
+    apply Hiss. split; [exact Hi2|]. exists sg; split; [exact Hs | left; exact Hlt]. }
+  assert (Hnr : ~ In (i0, g) rem).
+  { intros H. apply Hrem in H. destruct H as (_ & sg & Hs & Hlt).
+    rewrite Hsg in Hs; inversion Hs; subst sg. lia. }
+  exists (i0 :: fl). constructor.
+  - rewrite upd_length; exact Hlen2.
+  - cbn; lia.
+  - constructor; [exact Hnin | exact Hnd].
+  - intros y Hy. rewrite upd_length. destruct Hy as [Hy|Hy]; [subst y; lia | apply Hrange; exact Hy].
+  - split; [reflexivity|]. eexists _, _. split; [apply nth_error_upd_eq; exact Hi0|].
+    apply chain_upd; [exact Hnin | exact Hchain].
+  - intros i gen. rewrite Hiss. destruct (Nat.eq_dec i0 i) as [Heq|Hne].
+    + subst i. rewrite slot_gen_upd_eq by exact Hi0. rewrite Hsg. split.
+      * intros (Hi2 & sg & Hs & Hc). inversion Hs; subst sg. split; [exact Hi2|].
+        exists (g + 1)%N. split; [reflexivity|]. left. destruct Hc as [Hc|[Hc _]]; lia.
+      * intros (Hi2 & sg & Hs & Hc). inversion Hs; subst sg. split; [exact Hi2|].
+        exists g. split; [reflexivity|]. destruct Hc as [Hc|[_ Hc]].
+        -- assert (Hd : (gen < g \/ gen = g)%N) by lia.
+           destruct Hd as [Hd|Hd]; [left; exact Hd | right; split; [exact Hd | exact Hnin]].
+        -- exfalso; apply Hc; left; reflexivity.
+    + rewrite slot_gen_upd_neq by exact Hne. split.
+      * intros (Hi2 & sg & Hs & Hc). split; [exact Hi2|]. exists sg; split; [exact Hs|].
+        destruct Hc as [Hc|[Hc Hni]]; [left; exact Hc|]. right; split; [exact Hc|].
+        intros [Hx|Hx]; [apply Hne; exact Hx | apply Hni; exact Hx].
+      * intros (Hi2 & sg & Hs & Hc). split; [exact Hi2|]. exists sg; split; [exact Hs|].
+        destruct Hc as [Hc|[Hc Hni]]; [left; exact Hc|]. right; split; [exact Hc|].
+        intros Hx; apply Hni; right; exact Hx.
+  - intros i gen. rewrite in_app_iff. cbn [In]. rewrite Hrem.
+    destruct (Nat.eq_dec i0 i) as [Heq|Hne].
+    + subst i. rewrite slot_gen_upd_eq by exact Hi0. rewrite Hsg. split.
+      * intros [(Hi2 & sg & Hs & Hc)|[H|[]]].
+        -- inversion Hs; subst sg. split; [exact Hi2|]. exists (g + 1)%N.
+           split; [reflexivity | lia].
+        -- inversion H; subst gen. split; [exact H2|]. exists (g + 1)%N.
+           split; [reflexivity | lia].
+      * intros (Hi2 & sg & Hs & Hc). inversion Hs; subst sg.
+        assert (Hd : (gen < g \/ gen = g)%N) by lia.
+        destruct Hd as [Hd|Hd].
+        -- left. split; [exact Hi2|]. exists g; split; [reflexivity | exact Hd].
+        -- right; left. subst gen; reflexivity.
+    + rewrite slot_gen_upd_neq by exact Hne. split.
+      * intros [H|[H|[]]]; [exact H|]. inversion H; subst i. exfalso; apply Hne; reflexivity.
+      * intros H; left; exact H.
+  - exact Hndi.
+  - apply NoDup_snoc; [exact Hndr | exact Hnr].
+  - rewrite upd_length, app_length; cbn; lia.
+  - rewrite app_length; cbn.
+    assert (Hl : length ((i0, g) :: rem) <= length iss).
+    { apply NoDup_incl_length.
+      - constructor; [exact Hnr | exact Hndr].
+      - intros y [Hy|Hy]; [subst y; exact Hin | apply Hsub; exact Hy]. }
+    cbn in Hl; unfold ent in *; lia.
+Qed.
+
+Lemma inv_reset : forall l nx av iss rem fl,
+  InvR l nx av iss rem fl -> InvR (firstn reserved l) 0 0 [] [] [].
+Proof.
+  intros l nx av iss rem fl H. pose proof (I_len2 H) as Hlen2.
+  apply inv_empty. unfold reserved; rewrite firstn_length; lia.
+Qed.
+
+Lemma Inv_step : forall g o, Inv g -> no_wrap (g_pool g) -> Inv (gstep g o).
+Proof.
+  intros [[l nx av] iss rem] o [fl H] Hnw; unfold Inv in *;
+    cbn [g_pool g_issued g_removed pe pnext pavail] in *.
+  destruct o as [|k|]; unfold gstep; cbn [g_pool g_issued g_removed].
+  - destruct (pool_get _) as [e p'] eqn:Hg. cbn [g_pool g_issued g_removed].
+    eapply inv_get; [exact H | exact Hg].
+  - destruct (nth_error iss k) as [e|] eqn:Hk; [|exists fl; exact H].
+    destruct (pool_alive _ e) eqn:Ha; [|exists fl; exact H].
+    destruct (pool_recycle _ e) as [p'|] eqn:Hr; [|exists fl; exact H].
+    cbn [g_pool g_issued g_removed].
+    eapply inv_recycle; [exact H | exact Hnw | eapply nth_error_In; exact Hk | exact Ha | exact Hr].
+  - exists []. cbn [g_pool g_issued g_removed pool_reset pe pnext pavail].
+    eapply inv_reset; exact H.
+Qed.
+
+Lemma Inv_fold : forall ops g,
+  Inv g -> (forall n, no_wrap (g_pool (fold_left gstep (firstn n ops) g))) ->
+  Inv (fold_left gstep ops g).
+Proof.
+  induction ops as [|o ops IH]; intros g HI Hnw; cbn [fold_left]; [exact HI|].
+  apply IH.
+  - apply Inv_step; [exact HI | exact (Hnw 0)].
+  - intros n. exact (Hnw (S n)).
+Qed.
+
+Lemma Inv_run : forall ops, never_wrapped ops -> Inv (grun ops).
+Proof. intros ops H. apply Inv_fold; [exact Inv_ghost0 | exact H]. Qed.
+Arguments Inv_run {ops}.
+
+(** ** The theorems *)
 
 (** Every handle returned by Get differs from every handle issued since creation / the last reset:
     the handles issued since the last reset are pairwise distinct. *)
 Theorem pool_get_fresh :
   forall ops, never_wrapped ops -> NoDup (g_issued (grun ops)).
-Admitted.
+Proof.
+  intros ops H. destruct (Inv_run H) as [fl HI]. exact (I_nd_iss HI).
+Qed.
 
 (** Alive is exact: a handle issued since the last reset is alive iff it has not been recycled. *)
 Theorem pool_alive_exact :
   forall ops e, never_wrapped ops -> In e (g_issued (grun ops)) ->
   pool_alive (g_pool (grun ops)) e = negb (ent_in e (g_removed (grun ops))).
-Admitted.
+Proof.
+  intros ops [i gen] Hnw Hin. destruct (Inv_run Hnw) as [fl HI].
+  apply (I_iss HI) in Hin. destruct Hin as (H2 & sg & Hs & Hc).
+  unfold pool_alive; cbn [fst snd]. unfold slot_gen in Hs.
+  destruct (nth_error (pe (g_pool (grun ops))) i) as [[x g']|] eqn:Hn; [|discriminate].
+  inversion Hs; subst g'; clear Hs.
+  assert (Hsg : slot_gen (pe (g_pool (grun ops))) i = Some sg)
+    by (unfold slot_gen; rewrite Hn; reflexivity).
+  destruct Hc as [Hlt|[Heq Hnin]].
+  - assert (Hr : ent_in (i, gen) (g_removed (grun ops)) = true).
+    { apply ent_in_In. apply (I_rem HI). split; [exact H2|]. exists sg; split; [exact Hsg | exact Hlt]. }
+    rewrite Hr. cbn [negb]. apply N.eqb_neq. lia.
+  - subst gen. rewrite N.eqb_refl.
+    destruct (ent_in (i, sg) (g_removed (grun ops))) eqn:E; [|reflexivity].
+    apply ent_in_In in E. apply (I_rem HI) in E. destruct E as (_ & sg' & Hs' & Hlt).
+    rewrite Hsg in Hs'; inversion Hs'; subst sg'. lia.
+Qed.
 
 (** The zero entity is never alive; issued handles never use the reserved IDs. *)
 Theorem pool_reserved_dead :
   forall ops,
   pool_alive (g_pool (grun ops)) zero_ent = false /\
   (forall e, In e (g_issued (grun ops)) -> 2 <= fst e).
-Admitted.
+Proof.
+  intros ops. pose proof (W_run ops) as HW. split.
+  - unfold pool_alive, zero_ent; cbn [fst snd].
+    destruct (W_r0 HW) as [x Hx]. rewrite Hx. reflexivity.
+  - exact (W_iss HW).
+Qed.
 
-(** The reported number of used entities is creations minus removals. *)
-Theorem pool_len_count :
-  forall ops,
+(** The reported number of used entities is creations minus removals.
+
+    ORIGINAL STATEMENT (FALSE as stated, see [pool_len_count_false] /
+    [pool_len_count_unprovable] at the end of this file: it lacks the [never_wrapped]
+    hypothesis, and after a generation wrap-around a stale handle is recycled twice, so
+    removals exceed creations):
+
+    Theorem pool_len_count :
+      forall ops,
+      pool_len (g_pool (grun ops)) = length (g_issued (grun ops)) - length (g_removed (grun ops)) /\
+      length (g_removed (grun ops)) <= length (g_issued (grun ops)).
+
+    The variant below adds the hypothesis [never_wrapped ops] (the same one the other
+    theorems carry) and is otherwise identical. *)
+Theorem pool_len_count_partial :
+  forall ops, never_wrapped ops ->
   pool_len (g_pool (grun ops)) = length (g_issued (grun ops)) - length (g_removed (grun ops)) /\
   length (g_removed (grun ops)) <= length (g_issued (grun ops)).
-Admitted.
+Proof.
+  intros ops Hnw. destruct (Inv_run Hnw) as [fl HI].
+  pose proof (I_cnt HI) as Hc. pose proof (I_le HI) as Hle.
+  unfold pool_len, reserved. split; lia.
+Qed.
 
 (** A removed handle stays dead for the rest of the epoch, whatever happens to its ID. *)
 Theorem pool_removed_stays_dead :
   forall ops e, never_wrapped ops -> In e (g_removed (grun ops)) ->
   pool_alive (g_pool (grun ops)) e = false.
-Admitted.
+Proof.
+  intros ops e Hnw Hin.
+  assert (Hiss : In e (g_issued (grun ops))).
+  { destruct (Inv_run Hnw) as [fl HI]. destruct e as [i gen].
+    apply (I_rem HI) in Hin. destruct Hin as (H2 & sg & Hs & Hlt).
+    apply (I_iss HI). split; [exact H2|]. exists sg; split; [exact Hs | left; exact Hlt]. }
+  rewrite (pool_alive_exact _ _ Hnw Hiss).
+  apply ent_in_In in Hin. rewrite Hin. reflexivity.
+Qed.
 
 (** Without the hypothesis the claim is false: after 2^32 recycles of one slot a handle repeats.
     (Model-level statement of the boundary: a slot at generation 2^32-1 wraps to 0.) *)
 Lemma gen_wraps :
   forall p e id, nth_error (pe p) (fst e) = Some (id, max_u32) -> 2 <= fst e ->
   exists p', pool_recycle p e = Some p' /\ nth_error (pe p') (fst e) = Some (pnext p, 0%N).
-Admitted.
+Proof.
+  intros p e id Hn H2. unfold pool_recycle.
+  destruct (Nat.ltb (fst e) reserved) eqn:E.
+  - apply Nat.ltb_lt in E. unfold reserved in E. lia.
+  - rewrite Hn. eexists. split; [reflexivity|]. cbn [pe].
+    rewrite nth_error_upd_eq by (eapply nth_error_Some_lt; eassumption).
+    reflexivity.
+Qed.
+
+(** ** [pool_len_count] without [never_wrapped] is false
+
+    The statement as originally given,
+<<
+    Theorem pool_len_count :
+      forall ops,
+      pool_len (g_pool (grun ops)) = length (g_issued (grun ops)) - length (g_removed (grun ops)) /\
+      length (g_removed (grun ops)) <= length (g_issued (grun ops)).
+>>
+    has no [never_wrapped] hypothesis and does not hold: take 2^32 rounds of [PGet; PRecycle j]
+    (they all reuse slot 2, whose generation goes 0, 1, ..., 2^32-1 and wraps back to 0 while the
+    slot is on the free list), then [PRecycle 0]. The very first handle [(2, 0)] looks alive again
+    (generation compare only), is recycled a second time (double free), and the removal count
+    exceeds the issue count. The history has 2^33 + 1 operations, so it cannot be evaluated with
+    [vm_compute]; instead it is proved below, symbolically in the number of rounds
+    ([pool_len_count_false]). The true variant is [pool_len_count_partial] above. *)
+
+Definition cyc (j : nat) : list pop := [PGet; PRecycle j].
+
+Definition cyc_state (G : N) (iss rem : list ent) : ghost :=
+  {| g_pool := {| pe := [(0, max_u32); (1, max_u32); (0, G)]; pnext := 2; pavail := 1 |};
+     g_issued := iss; g_removed := rem |}.
+
+Lemma cyc_step : forall G iss rem k, length iss = k ->
+  gstep (gstep (cyc_state G iss rem) PGet) (PRecycle k) =
+  cyc_state ((G + 1) mod 4294967296)%N (iss ++ [(2, G)]) (rem ++ [(2, G)]).
+Proof.
+  intros G iss rem k Hk.
+  assert (E1 : gstep (cyc_state G iss rem) PGet =
+    {| g_pool := {| pe := [(0, max_u32); (1, max_u32); (2, G)]; pnext := 0; pavail := 0 |};
+       g_issued := iss ++ [(2, G)]; g_removed := rem |}) by reflexivity.
+  rewrite E1. unfold gstep. cbn [g_issued g_pool g_removed].
+  assert (E2 : nth_error (iss ++ [(2, G)]) k = Some (2, G)).
+  { rewrite nth_error_app2 by lia. subst k. rewrite Nat.sub_diag. reflexivity. }
+  rewrite E2.
+  unfold pool_alive; cbn [pe fst snd nth_error]. rewrite N.eqb_refl.
+  reflexivity.
+Qed.
+
+(** The ghost state after [k >= 1] rounds. *)
+Definition cyc_inv (k : nat) (g : ghost) : Prop :=
+  exists iss rem, g = cyc_state (N.of_nat k mod 4294967296)%N iss rem /\
+    length iss = k /\ length rem = k /\ nth_error iss 0 = Some (2, 0%N).
+
+Lemma cyc_fold : forall n k g, 1 <= k -> cyc_inv k g ->
+  cyc_inv (k + n) (fold_left gstep (flat_map cyc (seq k n)) g).
+Proof.
+  induction n as [|n IH]; intros k g Hk Hg.
+  - rewrite Nat.add_0_r. exact Hg.
+  - cbn [seq flat_map cyc app fold_left].
+    replace (k + S n) with (S k + n) by lia. apply IH; [lia|].
+    destruct Hg as (iss & rem & -> & Hli & Hlr & H0).
+    rewrite (cyc_step _ _ rem _ Hli).
+    exists (iss ++ [(2, (N.of_nat k mod 4294967296)%N)]),
+           (rem ++ [(2, (N.of_nat k mod 4294967296)%N)]).
+    split; [|split; [|split]].
+    + f_equal. rewrite Nat2N.inj_succ, <- N.add_1_r.
+      rewrite N.add_mod_idemp_l by discriminate. reflexivity.
+    + rewrite app_length; cbn; lia.
+    + rewrite app_length; cbn; lia.
+    + rewrite nth_error_app1 by lia. exact H0.
+Qed.
+
+Lemma cyc_run : forall n, cyc_inv (S n) (grun (flat_map cyc (seq 0 (S n)))).
+Proof.
+  intros n. unfold grun. cbn [seq flat_map cyc app fold_left].
+  apply (cyc_fold n 1); [lia|].
+  exists [(2, 0%N)], [(2, 0%N)]. repeat split.
+Qed.
+
+(** Illustration of the last step only (the state below is the one reached after 2^32 rounds,
+    up to the tails of the two ghost lists): recycling the stale handle [(2,0)] succeeds. *)
+Eval vm_compute in
+  (let g := gstep (cyc_state 0%N [(2, 0%N)] [(2, 0%N)]) (PRecycle 0) in
+   (pool_alive (g_pool (cyc_state 0%N [(2, 0%N)] [(2, 0%N)])) (2, 0%N),
+    length (g_issued g), length (g_removed g), g_pool g)).
+
+Theorem pool_len_count_false :
+  exists ops, ~ (length (g_removed (grun ops)) <= length (g_issued (grun ops))).
+Proof.
+  assert (Hex : exists n, N.of_nat n = 4294967296%N)
+    by (exists (N.to_nat 4294967296%N); apply N2Nat.id).
+  destruct Hex as [n Hn].
+  destruct n as [|n]; [discriminate|].
+  exists (flat_map cyc (seq 0 (S n)) ++ [PRecycle 0]).
+  unfold grun. rewrite fold_left_app. fold (grun (flat_map cyc (seq 0 (S n)))).
+  destruct (cyc_run n) as (iss & rem & -> & Hli & Hlr & H0).
+  rewrite Hn. change (4294967296 mod 4294967296)%N with 0%N.
+  cbn [fold_left]. unfold gstep, cyc_state. cbn [g_issued g_pool g_removed].
+  rewrite H0.
+  change (pool_alive _ (2, 0%N)) with true. cbv iota.
+  change (pool_recycle _ (2, 0%N)) with
+    (Some {| pe := [(0, max_u32); (1, max_u32); (2, 1%N)]; pnext := 2; pavail := 2 |}).
+  cbn [g_issued g_removed]. rewrite app_length; cbn [length]. lia.
+Qed.
+
+Corollary pool_len_count_unprovable :
+  ~ (forall ops,
+      pool_len (g_pool (grun ops)) = length (g_issued (grun ops)) - length (g_removed (grun ops)) /\
+      length (g_removed (grun ops)) <= length (g_issued (grun ops))).
+Proof.
+  intros H. destruct pool_len_count_false as [ops Hops]. apply Hops, H.
+Qed.
+
+Print Assumptions pool_get_fresh.
+Print Assumptions pool_alive_exact.
+Print Assumptions pool_reserved_dead.
+Print Assumptions pool_len_count_partial.
+Print Assumptions pool_removed_stays_dead.
+Print Assumptions gen_wraps.
+Print Assumptions pool_len_count_unprovable.
